@@ -118,6 +118,52 @@ theorem C18_history (c : Cpu) (es : List UInt32) :
     refine ⟨?_, ih2⟩
     rw [← ih1, hc]; rfl
 
+/-! ### histories of arbitrary host calls -/
+
+/-- what each host call does to the slice bookkeeping, as the property describes it: a timed step restarts the
+    count when a request was due and adds the T-states of the step; `set_freq` replaces the budget and
+    `set_slice_duration` the duration, neither touches the count; nothing else touches any of the three -/
+def Slice.after (s : Slice) (e : Event) (cyc : UInt32) : Slice :=
+  match e with
+  | .timed _ => { s with cur := accumulate s.max s.cur cyc }
+  | .setFreq n8 => { s with max := n8 * 125 * s.duration }
+  | .setSliceDuration d => { s with duration := d }
+  | _ => s
+
+/-- every host call, in any state: the bookkeeping evolves exactly by `Slice.after`; in particular changing the
+    clock in the middle of a slice neither discards nor restarts the T-states accumulated so far, and plain
+    steps, requests, stores, loads and register assignments do not count -/
+theorem C18_event (c : Cpu) (e : Event) : (runEvent c e).slice = c.slice.after e (step c).2 := by
+  cases e with
+  | timed el =>
+    show (executeTimed c el).1.slice = _
+    simp only [Slice.after, accumulate, executeTimed, sliceFires]
+    by_cases h : c.slice.cur > c.slice.max
+    · have h' : c.slice.max < c.slice.cur := h
+      simp [h, h']
+    · have h' : ¬ c.slice.max < c.slice.cur := h
+      simp [h, h']
+  | load file org => show (c.loadBin file org).slice = _; unfold Cpu.loadBin; split <;> rfl
+  | clear s t => show (c.clearSlice s t).slice = _; unfold Cpu.clearSlice; split <;> rfl
+  | _ => rfl
+
+/-- the slice bookkeeping after a whole history, computed without looking at the machine state except for the
+    T-states of the timed steps -/
+def sliceAlong (c : Cpu) : List Event → Slice
+  | [] => c.slice
+  | e :: es => sliceAlong (runEvent c e) es
+
+theorem C18_run (c : Cpu) (es : List Event) : (run c es).slice = sliceAlong c es := by
+  induction es generalizing c with
+  | nil => rfl
+  | cons e es ih => exact ih (runEvent c e)
+
+/-- and at every timed call of any history the request is returned exactly when the count exceeds the budget
+    in force at that moment -/
+theorem C18_run_fires (c : Cpu) (es : List Event) (el : UInt32) :
+    (executeTimed (run c es) (some el)).2.isSome = true ↔ (run c es).slice.max < (run c es).slice.cur :=
+  C18_fires_iff (run c es) el
+
 /-- non-vacuity: budget 3, counter 4 -> request, counter restarts from this step's 4 T-states -/
 example :
     let c : Cpu := { arch := { bus := { mem := #[0, 0] } }, slice := { duration := 16, max := 3, cur := 4 } }
